@@ -905,6 +905,29 @@ pub fn run(args: &Args) {
             run_case(&mut cx, &c, false);
         }
     }
+    // 3b. enumerated boundary family of the offset index: a block whose span is 2^offset_width - 1, exactly 2^offset_width,
+    //     and one more, reached at the 2nd / 3rd / last offset of a block, at the first offset of the next block, and by the
+    //     end offset; with and without the 4-byte record checksum
+    for (cfgname, w, b) in [("c0k0om", 12u32, 64usize), ("c0k2om", 12, 64), ("c0k0od", 16, 64), ("c0k2od", 16, 64), ("c0k0op", 20, 128), ("c3k0om", 12, 64)] {
+        let extra = if cfgname.as_bytes()[3] == b'2' { 4usize } else { 0 };
+        for target in [(1usize << w) - 1, 1 << w, (1 << w) + 1] {
+            for pos in [1usize, 2, b - 1, b, b + 1] {
+                if w == 20 && !args.thorough && pos > 2 { continue; }
+                // `pos` records whose stored lengths add up to `target`, then two small ones
+                let small = 3usize;
+                let mut recs: Vec<Value> = vec![];
+                let small_stored = small + extra;
+                if (pos - 1) * small_stored + extra > target { continue; }
+                for k in 0..pos - 1 { recs.push(json!([3, small, k])); }
+                recs.push(json!([1, target - (pos - 1) * small_stored - extra, pos]));
+                recs.push(json!([3, 2, 7]));
+                recs.push(json!([0, 0, 0]));
+                let c = json!({"cell": format!("zipoffset:{}", cfgname), "kind": "build", "recs": recs});
+                run_case(&mut cx, &c, false);
+                cx.sum.dist("offset_index_boundary_cases");
+            }
+        }
+    }
     // 4. stores seeded with explicit ids (from_data), incl. ids next to u32::MAX
     for _ in 0..(if args.thorough { 400 } else { 40 }) {
         let n = rng.range(1, 5);
